@@ -266,27 +266,27 @@ func (e *Engine) stop() bool {
 func (e *Engine) applyOption(s *State, op option, layer, idx int) {
 	if op.ti < 0 {
 		e.fireTimer(s, op.timer)
-		s.Sched = &schedNode{prev: s.Sched, layer: layer, tid: -1, alt: idx, what: "timer"}
+		s.Sched = &schedNode{prev: s.Sched, layer: layer, tid: -1, alt: idx, what: "fire", name: "timer"}
 		return
 	}
 	s.Cur = op.ti
 	th := s.Threads[op.ti]
-	what := ""
+	node := &schedNode{prev: s.Sched, layer: layer, tid: th.ID, alt: idx, name: th.Name}
 	if th.Parked {
 		th.Granted = true
 		th.Parked = false
 		th.Alt = op.alt
 		s.VisSteps++
 		for i, o := range s.Threads {
-			if i != op.ti {
+			if i != op.ti && o.HasSlept {
 				o.OthersStepped = true
 			}
 		}
-		what = e.where(th)
+		node.frames = append([]*Frame(nil), th.Frames...)
 	} else {
-		what = "start " + th.Name
+		node.what = "start " + th.Name
 	}
-	s.Sched = &schedNode{prev: s.Sched, layer: layer, tid: th.ID, alt: idx, what: th.Name + ": " + what}
+	s.Sched = node
 }
 
 // terminal handles a state in which nothing can move.
@@ -325,7 +325,11 @@ func (e *Engine) indexOf(st *State, th *Thread) int {
 func (e *Engine) schedList(st *State) []string {
 	var out []string
 	for n := st.Sched; n != nil; n = n.prev {
-		out = append(out, fmt.Sprintf("%d: %s", n.layer, n.what))
+		what := n.what
+		if n.frames != nil {
+			what = e.where(&Thread{Frames: n.frames})
+		}
+		out = append(out, fmt.Sprintf("%d: %s: %s", n.layer, n.name, what))
 	}
 	for i, j := 0, len(out)-1; i < j; i, j = i+1, j-1 {
 		out[i], out[j] = out[j], out[i]
